@@ -616,6 +616,9 @@ class BaseWorklist(list):
 
         # transform destination wells into range + mask
         destination_wells = numpy.array(destination_wells).flatten("F")
+        unknown_wells = [w for w in destination_wells if w not in destination.indices]
+        if unknown_wells:
+            raise KeyError(f"Unknown well IDs: {unknown_wells}")
         dst_wells = list(sorted([self._get_well_position(destination, w) for w in destination_wells]))
         dst_start, dst_end = dst_wells[0], dst_wells[-1]
         excluded_dst_wells = set(range(dst_start, dst_end + 1)).difference(dst_wells)
